@@ -12,6 +12,7 @@ from dataclasses import dataclass, field
 from typing import Any, Callable
 
 from vf import protoparse, refcodec, refnoise
+from vf.sim import rotation
 
 _pb: Any = None
 
@@ -124,6 +125,8 @@ class DeviceConn:
                 if name == "default":
                     name = self.cfg.name.encode()
                 hello = b"\x01" + (b"" if name is None else (name if isinstance(name, bytes) else name.encode()) + b"\x00")
+                if name is not None and rotation.decide("noise_hello_mac_field", (False, True)):
+                    hello += b"aabbccddeeff\x00"    # current firmware announces further NUL-terminated fields behind the name (MAC address)
                 try:
                     if body[:1] != b"\x00":
                         raise refnoise.NoiseError(f"indicator {body[:1].hex()}")
